@@ -804,6 +804,13 @@ func (f *fctx) inlineCallWith(callee *ssa.Function, args []Term, bindings []ssa.
 					c.con.Unroll[l-nRoot] = n
 				}
 			}
+			// ... and so are loop invariants (they are evaluated with the enclosing function's names in scope)
+			for l, invs := range root.rootCon.Loops {
+				if l >= nRoot {
+					c.con.Loops[l-nRoot] = invs
+				}
+			}
+			c.callBlock = f.curBlock
 		}
 	}
 	c.cur = f.cur
